@@ -159,6 +159,33 @@ def stubborn_child(ctx):
                 pass
 
 
+def lingering_descendant(ctx):
+    """log-file capture: the child is what is timed and classified — a launcher that starts a background helper (which keeps
+    the log files open) and exits at once with its code has ended, long before the limit, with that code"""
+    import time
+    from lithium.interestingness import timed_run
+
+    for code, want in ((0, "NORMAL"), (3, "ABNORMAL"), (77, "CRASH")):
+        prefix = str(loaders.scratch() / f"c18-linger-{os.getpid()}")
+        cmd = ["/bin/sh", "-c", f"echo started; sleep 4 & exit {code}"]
+        case = dict(cmd=cmd, timeout=2, mode="file", label=f"lingering-descendant:{code}")
+        ctx.evaluations += 1
+        ctx.bump("lingering-descendant")
+        t0 = time.monotonic()
+        try:
+            rd = timed_run.timed_run(cmd, 2, prefix)
+        except Exception as exc:  # pylint: disable=broad-except
+            ctx.fail("timed-run-raises", f"lingering-descendant:{code}/file: timed_run raised {type(exc).__name__}: {exc}", case)
+            continue
+        took = time.monotonic() - t0
+        if rd.status.name != want or rd.return_code != code:
+            ctx.fail("status", f"lingering-descendant:{code}/file: status {rd.status.name}, return_code {rd.return_code} after {took:.1f} s; the child "
+                     f"exited at once with {code} (expected {want})", case)
+        elif open(rd.out, "rb").read() != b"started\n":
+            ctx.fail("stdout", f"lingering-descendant:{code}/file: log holds {open(rd.out, 'rb').read()!r}", case)
+        ctx.nontriv("lingering-descendant", code)
+
+
 def preset_environment(ctx):
     """the classification does not depend on what the caller's environment says about sanitizers: exit code 77 is the
     crash code, whatever `exitcode=` an inherited ASAN_OPTIONS names"""
@@ -178,6 +205,7 @@ def run(ctx) -> int:
     common.default_signal_dispositions()
     proof = common.proof_stage(ctx.pid)
     stubborn_child(ctx)
+    lingering_descendant(ctx)
     preset_environment(ctx)
     sh = "/bin/sh"
     codes = range(0, 256)
